@@ -263,6 +263,13 @@ Definition recv_body_read (f : inner) (input : bytes) (cap : N) : res (inner * N
   do r <- call_read c input cap;
   let '(c', i, o) := r in Ok (set_call f c', i, o).
 
+(** The flow after a [read] that returned an error. *)
+Definition recv_body_after_err (f : inner) (input : bytes) (cap : N) : inner :=
+  match i_holder f with
+  | HRecvBody => set_call f (call_read_after_err (i_call f) input cap)
+  | _ => f
+  end.
+
 Definition recv_body_stop (f : inner) (b : bool) : res inner :=
   do c <- as_recv_body f; Ok (set_call f (set_stop c b)).
 
